@@ -30,7 +30,7 @@ from common import PY, REPO, setup_repo_import
 from lib import c17ext
 
 ID = "C17"
-GENS = ["c17_levels"]
+GENS = ["c17_levels", "c17_hr"]
 PROOF = "Gallia.Proofs.C17"
 DRIVER = "c17"
 ORACLE = True
